@@ -9,16 +9,16 @@ CONSTANTS Types, Emit, Pairs
 G == INSTANCE TlbGen WITH Schema <- TheSchema
 TagsOk == \A nm \in DOMAIN TheSchema : G!TagsPrefixFree(nm)
 ASSUME TagsOk
-Vals(nm) == IF Pairs THEN G!TopValues(nm) \cup G!PairValues(nm) ELSE G!TopValues(nm)
+Vals(nm0) == LET nm == TypeOf(nm0) IN IF Pairs THEN G!TopValues(nm) \cup G!PairValues(nm) ELSE G!TopValues(nm)
 VARIABLE ty
 Init == ty \in Types
 Next == UNCHANGED ty
 Export == Emit => \A v \in Vals(ty) :
-             ~G!TreeFits(G!Encode(ty, v)) \/ PrintT(ToJson([type |-> ty, val |-> v, enc |-> G!Encode(ty, v), flat |-> G!FlattenV(ty, v)]))
+             ~G!TreeFits(G!Encode(TypeOf(ty), v)) \/ PrintT(ToJson([type |-> ty, base |-> TypeOf(ty), val |-> v, enc |-> G!Encode(TypeOf(ty), v), flat |-> G!FlattenV(TypeOf(ty), v)]))
 Count == Cardinality(Vals(ty)) >= 1
 \* M: the decoder (an independent reading of the schema) inverts the encoder on every generated value: every leaf the
 \* flattener lists for the decoded value is the leaf of the original, and the cell is consumed exactly
 DecEnc == \A v \in Vals(ty) :
-             LET e == G!Encode(ty, v) IN
-             G!TreeFits(e) => LET d == G!Decode(ty, e) IN d.ok /\ G!FlattenV(ty, d.v) = G!FlattenV(ty, v)
+             LET e == G!Encode(TypeOf(ty), v) IN
+             G!TreeFits(e) => LET d == G!Decode(TypeOf(ty), e) IN d.ok /\ G!FlattenV(TypeOf(ty), d.v) = G!FlattenV(TypeOf(ty), v)
 =============================================================================
